@@ -1,5 +1,6 @@
 import Driver.Util
 import OptunaVerif.Model.BruteForce
+import OptunaVerif.Generated.BruteForceMethods
 /-! Sub-driver `bruteforce`: the brute-force sampler model behind the line protocol (C14).
 
 request  {"op":"run","prog":P,"avoid":bool,"ks":[k..],"cuts":[[trial,"mid",j]|[trial,"end"]..],
@@ -7,12 +8,17 @@ request  {"op":"run","prog":P,"avoid":bool,"ks":[k..],"cuts":[[trial,"mid",j]|[t
    P = {"leaf":"complete"|"pruned"|"fail"|"raise"} | {"name":s,"dist":D,"kids":[["n/d",P]..]}
    D = {"k":"int","low":i,"high":i,"step":i} | {"k":"float","low":"n/d","high":"n/d","step":"n/d"} | {"k":"cat","n":i}
 response {"trials":[{"steps":[[name,"n/d"]..],"finished":b}..],"stop":b,"crashed":b,"ncalls":n,
-          "calls":[{"trial":i,"name":s,"cands":["n/d"..],"weights":[w..]|null}..]}
-request  {"op":"enum","dist":D}  ->  {"cands":["n/d"..],"single":b}
+          "calls":[{"trial":i,"name":s,"cands":["n/d"..],"weights":[w..]|null}..],"gen":null|{..}}
+          "gen": the same run with `sample_independent` / `after_trial` taken from the interpreter of the methods
+          GENERATED from the source (`Generated/BruteForceMethods.lean`, `Model/SamplerIR.lean`; finished trials
+          stored as COMPLETE / PRUNED / FAIL in turn) — `null` when it agrees with the hand model on every
+          trial, the stop flag, the crash flag and the number of RNG calls, else the first difference.
+request  {"op":"enum","dist":D}  ->  {"cands":["n/d"..],"single":b,"gen":null|{..}}   (generated `_enumerate_candidates`)
 -/
 open Lean
 namespace Driver.Sub.BruteForce
-open OptunaVerif OptunaVerif.BruteForce Driver
+open OptunaVerif OptunaVerif.BruteForce OptunaVerif.SamplerIR Driver
+open OptunaVerif.Generated
 
 def ratF (j : Json) (k : String) : P Rat := do parseRat (← strF j k)
 
@@ -88,6 +94,30 @@ def allCalls (avoid : Bool) (p : Prog) (trials : List Trial) (nStale : Nat) : Li
       | some t => callsOf avoid (trials.take i) i p [] t.steps
       | none => [])
 
+/-- the finished states the generated run stores: COMPLETE, PRUNED, FAIL in turn -/
+def sigma (i : Nat) : FState :=
+  match i % 3 with
+  | 0 => .complete
+  | 1 => .pruned
+  | _ => .fail
+
+def genRun (cx : Ctx) (p : Prog) (ks : List Nat) (st : St) : St :=
+  sessionW (genImpl BruteForceMethods.treeProg BruteForceMethods.populateTree BruteForceMethods.sampleIndependent
+    BruteForceMethods.afterTrial sigma) cx p ks st
+
+def genDiff (h g : St) : Json :=
+  if h.trials.length != g.trials.length then
+    Json.mkObj [("what", "number of trials"), ("hand", h.trials.length), ("generated", g.trials.length)]
+  else
+    match (List.range h.trials.length).find? (fun i => h.trials[i]? != g.trials[i]?) with
+    | some i => Json.mkObj [("what", "trial"), ("index", i),
+        ("hand", (h.trials[i]?.map trialJson).getD Json.null), ("generated", (g.trials[i]?.map trialJson).getD Json.null)]
+    | none =>
+      if h.stop != g.stop then Json.mkObj [("what", "stop flag"), ("hand", h.stop), ("generated", g.stop)]
+      else if h.crashed != g.crashed then Json.mkObj [("what", "sampler error"), ("hand", h.crashed), ("generated", g.crashed)]
+      else if h.calls != g.calls then Json.mkObj [("what", "RNG calls"), ("hand", h.calls), ("generated", g.calls)]
+      else Json.null
+
 def run (j : Json) : P Json := do
   let p ← parseProg (← field j "prog")
   let avoid ← boolF j "avoid"
@@ -103,7 +133,11 @@ def run (j : Json) : P Json := do
       | some tc => tc.2
       | none => .none }
   let st := session cx p ks { trials := stale }
+  -- the generated hooks may never set the stop flag: bound every budget by what the hand model needed
+  let cap := st.trials.length + 3
+  let stG := genRun cx p (ks.map (fun k => min k cap)) { trials := stale }
   return Json.mkObj [
+    ("gen", genDiff st stG),
     ("trials", Json.arr (st.trials.map trialJson).toArray),
     ("stop", st.stop), ("crashed", st.crashed), ("ncalls", st.calls),
     ("calls", Json.arr (allCalls avoid p st.trials stale.length).toArray)]
@@ -116,7 +150,11 @@ def handle (j : Json) : Json :=
     | .error e => Json.mkObj [("k", "bad-op"), ("why", e)]
   | .ok (Json.str "enum") =>
     match (do let d ← parseDist (← field j "dist"); pure d : P Dist) with
-    | .ok d => Json.mkObj [("cands", ratsJson d.enumerate), ("single", d.single)]
+    | .ok d =>
+      let g : Json := match interpEnumerate BruteForceMethods.enumerateCandidates id d with
+        | .ok l => if l == d.enumerate then Json.null else Json.mkObj [("what", "candidates"), ("generated", ratsJson l)]
+        | .error _ => Json.mkObj [("what", "generated _enumerate_candidates raised")]
+      Json.mkObj [("cands", ratsJson d.enumerate), ("single", d.single), ("gen", g)]
     | .error e => Json.mkObj [("k", "bad-op"), ("why", e)]
   | _ => Json.mkObj [("k", "bad-op"), ("why", "unknown op")]
 
